@@ -25,6 +25,8 @@ def nontrivial(case, real, st):
 
 
 def oracle(ctx, case, real, rt):
+    if real["outcome"] == "stuck":
+        return  # the program misused the API (unbound handle ...): it was abandoned mid-block by the harness
     for tag, what in rt.checks:
         if tag in ("ctx", "placement"):
             ctx.violation(what, case)
